@@ -343,7 +343,7 @@ LEVEL_TEXT = ("Machine-checked Lean 4 theorems (C15_*) over EVERY section value,
               "lasio/las_items.py by a correspondence check that replays operation sequences (exhaustive to a length bound, then random) on "
               "the real class and on the compiled model and diffs state + 10 probe keys after every step, and by an executable reading of "
               "the property (oracle) run on the real class for every explored state.")
-LEVEL_NOTE = ("Props/C15Frame.lean (sixth session): C15_set_value_lookups - after `s[k] = v` through any key form every lookup of every key (find, membership, s[k'], s.k', session and original key lists) answers exactly as before, for every section and both transform settings. Theorems are about the model; model = code is established only on the explored sequences. Keys are str/int. Attribute clause over "
+LEVEL_NOTE = ("Props/C15Frame.lean (sixth session): C15_set_value_lookups - after `s[k] = v` through any key form every lookup of every key (find, membership, s[k'], s.k', session and original key lists) answers exactly as before, for every section and both transform settings; C15_pop_eq_del_int (pop(i) = del s[i] for every integer), C15_delete_keys (key lists lose exactly the addressed entry). Theorems are about the model; model = code is established only on the explored sequences. Keys are str/int. Attribute clause over "
               "identifiers that are not class attributes. Trusted: Lean kernel, driver compilation, CPython list semantics.")
 
 RULE = RULE + ("; ALSO (fifth session): `setval` with plain values that are not str / int / float (None, numpy scalars, list, tuple, bytes, bool)")
